@@ -25,6 +25,9 @@ func runC13(c *Ctx) {
 	c13Barrier(c)
 	c20Guard(c, "C13.question")
 	c13QuestionAccess(c)
+	// an unsynchronised write to a package-level map from the query path is not a recoverable panic: the runtime aborts the process
+	c.importRules(runC14, "C14", map[string]string{"globals": "globals"})
+	c13TypeAssert(c)
 }
 
 // c13QuestionAccess: the database handler never indexes the question section directly.
